@@ -649,6 +649,15 @@ def _gen_container_input(rng, kind, args, depth, cons):
                     items[j] = sub(rng, cd["contains"], depth + 1)
         if "unique_items" in cd and items and rng.random() < 0.4:
             items.append(items[0])
+        elif "unique_items" in cd and rng.random() < 0.3:
+            # two items of different Python types that are equal (one hashable, the other not / a subclass instance)
+            pair = rng.choice([(lambda: b"k", lambda: bytearray(b"k")), (lambda: frozenset({1, 2}), lambda: {1, 2}),
+                               (lambda: V.Tone.RED, lambda: V.Tone.RED.value), (lambda: 1, lambda: 1.0), (lambda: (), lambda: ())])
+            pair = list(pair)
+            rng.shuffle(pair)
+            at = rng.randint(0, len(items))
+            items[at:at] = pair[:1]
+            items.append(pair[1])
     shape = rng.choice(["list", "list", "list", "tuple", "set", "deque", "iter", "gen", "str", "frozenset", "dkeys"])
 
     def make():
